@@ -794,9 +794,22 @@ def design_term_tie(ctx):
             dp = netlist.Dump(hw)
         add('TReg(wt=%d, we=%d, wr=%d, e=%s, r=%s)' % (wt, we, wr, he, hr), dp, 'treg_design 1 %d %d %d %s %s' % (wt, we, wr, blit(he), blit(hr)), 'counter_st0')
         ctx.count(('design_term', 'TReg', wt, we, wr, he, hr))
+    for (w, wo, we, wr, he, hr, delay) in [(4, 4, 1, 1, True, True, 0), (4, 4, 1, 1, True, True, 1), (3, 3, 1, 1, True, True, 3), (8, 8, 1, 1, False, False, 2),
+                                           (2, 2, 1, 1, True, False, 2), (5, 5, 1, 1, False, True, 4), (1, 1, 2, 2, True, True, 2)]:
+        with quiet():
+            hw = py4hw.HWSystem()
+            a = hw.wire('a', w)
+            en = hw.wire('en', we) if he else None
+            rs = hw.wire('reset', wr) if hr else None
+            r = hw.wire('r', wo)
+            py4hw.logic.storage.DelayLine(hw, 'dl', a, en, rs, r, delay)
+            dp = netlist.Dump(hw)
+        add('DelayLine(w=%d, wo=%d, we=%d, wr=%d, en=%s, reset=%s, delay=%d)' % (w, wo, we, wr, he, hr, delay), dp,
+            'delayline_design %d %d %d %d %s %s %d%%nat' % (w, wo, we, wr, blit(he), blit(hr), delay), 'delayline_st0 %d%%nat' % delay)
+        ctx.count(('design_term', 'DelayLine', w, wo, we, wr, he, hr, delay))
     tag = 'C09_designterms'
     path = os.path.join(common.CASES, tag + '.v'); os.makedirs(common.CASES, exist_ok=True)
-    pre = ('From V Require Import Base.PyInt Gen.WireOps Gen.Helpers Gen.Prims Gen.Seq Model.SimKernel Model.Trace.\nFrom V Require Import Proofs.C09.Netlist.\n'
+    pre = ('From V Require Import Base.PyInt Gen.WireOps Gen.Helpers Gen.Prims Gen.Seq Model.SimKernel Model.Trace.\nFrom V Require Import Proofs.C09.Netlist Proofs.C09.NetlistDelay.\n'
            'From Coq Require Import List ZArith. Import ListNotations. Open Scope Z_scope.\n')
     open(path, 'w').write(pre + '\n'.join(defs) + '\n' + '\n'.join(goals) + '\n')
     rc, out = common.sh('timeout 600 coqc -Q . V Cases/%s.v' % tag, timeout=630, cwd=common.COQ)
